@@ -9,7 +9,7 @@ import concurrent.futures as cf
 import itertools
 
 from .. import instr, harness, stacks
-from ..harness import (Sweep, Ctx, ManualExecutor, call, check_common, begin, end, drive, Recorded, UserErrorA, OtherError,
+from ..harness import (SpyFuture, Sweep, Ctx, ManualExecutor, call, check_common, begin, end, drive, Recorded, UserErrorA, OtherError,
                        outcome)
 from ..instr import LOG, TR, LM, Inconclusive
 
@@ -68,6 +68,8 @@ def cases(tier, seed):
     for layer in ("map", "retry", "poll", "throttle", "timeout", "cos", "flat_map"):
         out.append({"name": "metrics.double-shutdown/%s" % layer, "kind": "dblsd", "layer": layer, "cap": 30 if tier == "quick" else None})
     out.append({"name": "metrics.precancelled/cos", "kind": "precancelled"})
+    for comb in ("f_map", "f_flat_map", "f_zip", "f_sequence", "f_and", "f_or", "f_apply", "f_proxy", "f_nocancel", "f_timeout", "f_traverse"):
+        out.append({"name": "metrics.combinators/%s" % comb, "kind": "combinators", "comb": comb})
     out.append({"name": "metrics.engaged", "kind": "engaged"})
     return out
 
@@ -415,6 +417,84 @@ class DSScenario(object):
             res.key("dblsd", self.case["layer"], info.get("site"))
 
 
+def run_combinators(case, res):
+    """Plain use of a future combinator, k times, everything finished and dropped: the gauges of the library's
+    internal executors are back where they were (nothing of it is in progress or in use any more)."""
+    import gc
+    F = instr.ME.futures
+    P = prom()
+    comb = case["comb"]
+
+    def use(outcome_kind):
+        ins = [SpyFuture("in%d" % i) for i in range(3)]
+        if comb == "f_map":
+            out = F.f_map(ins[0], lambda x: x)
+        elif comb == "f_flat_map":
+            out = F.f_flat_map(ins[0], lambda x: F.f_return(x))
+        elif comb == "f_zip":
+            out = F.f_zip(*ins)
+        elif comb == "f_sequence":
+            out = F.f_sequence(ins)
+        elif comb == "f_traverse":
+            out = F.f_traverse(lambda i: ins[i], range(3))
+        elif comb == "f_and":
+            out = F.f_and(*ins)
+        elif comb == "f_or":
+            out = F.f_or(*ins)
+        elif comb == "f_apply":
+            out = F.f_apply(ins[0], ins[1], k=ins[2])
+        elif comb == "f_proxy":
+            out = F.f_proxy(ins[0])
+        elif comb == "f_nocancel":
+            out = F.f_nocancel(ins[0])
+        else:
+            out = F.f_timeout(ins[0], 50.0)
+        if outcome_kind == "cancel":
+            out.cancel()
+        for i, f in enumerate(ins):
+            if f.done():
+                continue
+            if outcome_kind == "exc" and i == 0:
+                f.set_exception(UserErrorA("x"))
+            else:
+                f.set_result((lambda *a, **k: 1) if (comb == "f_apply" and i == 0) else 1)
+        return out
+
+    def gauges():
+        out = {}
+        for key, (value, mn, is_gauge) in P.dump(None).items():
+            if is_gauge and dict(key[1:]).get("executor") == "internal":
+                out[key] = value
+        return out
+    begin("vt")
+    ctx = Ctx()
+    try:
+        use("value")  # (lazily created internal executors exist from now on)
+        instr.advance(D)
+        gc.collect()
+        base = gauges()
+        for k, kind in enumerate(["value", "exc", "cancel", "value", "value", "exc"]):
+            o = use(kind)
+            del o
+        instr.advance(D)
+        gc.collect()
+        instr.advance(D)
+        after = gauges()
+        res.execs += 1
+        check_common(res)
+        for key in sorted(set(base) | set(after)):
+            b, a = base.get(key, 0), after.get(key, 0)
+            if a != b:
+                res.violation("gauge-grows-with-use/%s" % key[0],
+                              "%s used 6 times, every future finished and dropped: gauge %s went from %s to %s (it counts things that no "
+                              "longer exist)" % (comb, key, b, a))
+        res.key("combinators", comb)
+        res.count("gauges_compared", len(after))
+        res.sample({"combinator": comb, "gauges_after_use": {"%s%s" % (k[0], dict(k[1:])): v for k, v in sorted(after.items())}}, limit=1)
+    finally:
+        end(ctx)
+
+
 def run_precancelled(case, res):
     """The wrapped executor hands back futures that are already cancelled / finished: shutdown cancels
     nothing, so shutdown_cancel stays 0."""
@@ -521,6 +601,8 @@ def run_case(case, res):
         Sweep(DSScenario(case), res, "vt", case["name"]).run(case["cap"], rng, per_site=2)
     elif k == "precancelled":
         run_precancelled(case, res)
+    elif k == "combinators":
+        run_combinators(case, res)
     elif k == "wsweep":
         rng = random.Random("c20w/%s" % case["seed"])
         Sweep(TWScenario(case), res, "vt", case["name"]).run(case["cap"], rng, per_site=3)
